@@ -204,7 +204,7 @@ def _chunk(args):
 
 def _chunk_body(args):
     prop, tier, seed, start, n, want_digest, budget_deadline = args
-    faulthandler.dump_traceback_later(600, exit=True)
+    faulthandler.dump_traceback_later(300, exit=True)
     import_library()
     mod = load_prop(prop)
     stats = Stats(want_digest)
